@@ -22,6 +22,8 @@
 #include <stdlib.h>
 #include <string.h>
 #include <sys/stat.h>
+#include <sys/wait.h>
+#include <signal.h>
 #include <time.h>
 #include <unistd.h>
 
@@ -465,6 +467,10 @@ static int popcount_mask(YR_BITMASK* m, uint32_t nbits)
   return c;
 }
 
+/* the scan flags the caller set (effective value right after yr_scanner_create / yr_scanner_set_flags): a scan must leave them */
+static int user_flags[MAXSLOT];
+static int scanner_slot_of(YR_SCANNER* s) { for (int i = 0; i < MAXSLOT; i++) if (scanners[i] == s) return i; return -1; }
+
 static void log_resid(YR_SCANNER* s)
 {
   YR_RULES* r = s->rules;
@@ -483,10 +489,11 @@ static void log_resid(YR_SCANNER* s)
       for (YR_HASH_TABLE_ENTRY* en = s->objects_table->buckets[b]; en; en = en->next) nobj++;
   fprintf(out,
           "\"resid\":{\"matches\":%ld,\"unconfirmed\":%ld,\"ruleFlags\":%d,\"reqEval\":%d,\"nsUnsat\":%d,"
-          "\"disabled\":%d,\"notebook\":%d,\"modules\":%d}",
+          "\"disabled\":%d,\"notebook\":%d,\"modules\":%d,\"flagsChanged\":%d}",
           nm, nu, popcount_mask(s->rule_matches_flags, r->num_rules), popcount_mask(s->required_eval, r->num_rules),
           popcount_mask(s->ns_unsatisfied_flags, r->num_namespaces),
-          popcount_mask(s->strings_temp_disabled, r->num_strings), s->matches_notebook != NULL, nobj - next);
+          popcount_mask(s->strings_temp_disabled, r->num_strings), s->matches_notebook != NULL, nobj - next,
+          scanner_slot_of(s) >= 0 && s->flags != user_flags[scanner_slot_of(s)]);
 }
 
 static void j_u64_or_undef(uint64_t v)
@@ -1042,7 +1049,7 @@ int main(int argc, char** argv)
         continue;
       }
       int r = yr_scanner_create(rulesets[rr], &scanners[s]);
-      if (r != ERROR_SUCCESS) scanners[s] = NULL;
+      if (r != ERROR_SUCCESS) scanners[s] = NULL; else user_flags[s] = scanners[s]->flags;
       fprintf(out, "{\"e\":\"ScannerCreate\",\"sid\":%d,\"rid\":%d,\"ret\":%d}\n", s, rr, r);
     }
     else if (!strcmp(op, "sflags"))
@@ -1051,6 +1058,7 @@ int main(int argc, char** argv)
       int s = slot(tok[1], MAXSLOT);
       if (!scanners[s]) continue;
       yr_scanner_set_flags(scanners[s], atoi(tok[2]));
+      user_flags[s] = scanners[s]->flags;
       fprintf(out, "{\"e\":\"SetFlags\",\"sid\":%d,\"flags\":%d,\"eff\":%d}\n", s, atoi(tok[2]), scanners[s]->flags);
     }
     else if (!strcmp(op, "stimeout"))
@@ -1106,6 +1114,15 @@ int main(int argc, char** argv)
       clock_gettime(CLOCK_MONOTONIC, &t0);
       if (!strcmp(mode, "mem")) { r = yr_scanner_scan_mem(sc, datas[d].p, datas[d].n); calls = 1; }
       else if (!strcmp(mode, "file")) { r = yr_scanner_scan_file(sc, data_to_file(d)); calls = 1; }
+      else if (!strcmp(mode, "proc"))
+      {
+        /* the memory of a child process (a copy of this one, waiting): what it contains is not modelled - the scan is there
+           for what it leaves behind in the scanner */
+        pid_t pid = fork();
+        if (pid == 0) { for (;;) pause(); }
+        r = pid > 0 ? yr_scanner_scan_proc(sc, pid) : -1; calls = 1;
+        if (pid > 0) { kill(pid, SIGKILL); waitpid(pid, NULL, 0); }
+      }
       else if (!strcmp(mode, "fd"))
       {
         int fd = open(data_to_file(d), O_RDONLY);
